@@ -758,7 +758,10 @@ fn pair_phase(r: &Report, t: &mut Tot, uni: &Uni, maxd: Option<u32>) {
                     }
                 }
                 let rk = pre[bi].root_key;
-                let legacy = hooks::snapshot::state_root(st, &rk);
+                let Ok(legacy) = safe_root(st, &rk) else {
+                    // a replayed state the legacy hasher itself rejects is C04's business
+                    continue;
+                };
                 let case = CaseId {
                     root_equal: false,
                     distance: d,
